@@ -820,6 +820,7 @@ class Container:
         if round(ratio, config.internal_precision) > 1:
             raise ValueError(f"Not enough mixture left in source container ({source_container.name}).")
 
+        original_source = source_container
         source_container, to = deepcopy(source_container), deepcopy(self)
         for substance, amount in source_container.contents.items():
             to_transfer = amount * ratio
@@ -838,7 +839,7 @@ class Container:
             # total mass in source container times ratio
             mass = sum(Unit.convert(substance,
                                     f"{amount} {config.moles_storage_unit if not substance.is_enzyme() else 'U'}",
-                                    "mg") for substance, amount in source_container.contents.items())
+                                    "mg") for substance, amount in original_source.contents.items())
             transfer, unit = Unit.get_human_readable_unit(mass * ratio, 'mg')
         precision = config.precisions[unit] if unit in config.precisions else config.precisions['default']
         to.instructions += f"\nTransfer {round(transfer, precision)} {unit} of {source_container.name} to {to.name}"
